@@ -79,7 +79,7 @@ def long_raw_cases(ctx, tier):
         return []
     want = 14000
     probes, metas = [], []
-    for i in range(24 if tier == "thorough" else 10):
+    for i in range(60 if tier == "thorough" else 24):
         spec = "paint/%d/%d" % (7 * i + 1, [100, 0, 1025, 3000, 70000][i % 5])
         probes.append("p%d H hash detect u:0:%s x:0:%d" % (i, spec, want))
         metas.append(spec)
@@ -92,7 +92,7 @@ def long_raw_cases(ctx, tier):
         stream = bytes.fromhex(r.split()[0][1:])
         nl = [k for k, c in enumerate(stream) if c == 10]
         gaps = [(a, b2) for a, b2 in zip(nl, nl[1:] + [len(stream)]) if b2 - a > 1200]
-        for a, b2 in gaps[:2]:
+        for a, b2 in gaps[:2] if found < (40 if tier == "thorough" else 6) else []:
             length = a + 1 + 1100 + (found % 3) * 30           # last newline at a, 1100.. bytes after it
             out.append("b3hash hash - len=%d,raw%s %s:%s" % (length, ",nommap" if found % 2 else "", hx(b"lr%d" % found), spec))
             found += 1
